@@ -1,9 +1,10 @@
 /-
-  C03 — property theorems (and non-vacuity examples) ONLY.  Helper lemmas: `Lemmas.lean`, `ParseLemmas.lean`, `FuelLemmas.lean`, `TreeLemmas.lean`, `NumLemmas.lean`.
+  C03 — property theorems (and non-vacuity examples) ONLY.  Helper lemmas: `Lemmas.lean`, `ParseLemmas.lean`, `FuelLemmas.lean`, `TreeLemmas.lean`, `NumLemmas.lean`, `SemLemmas.lean`, `SemMain.lean`.
 -/
 import YashModel.Arith.FuelLemmas
 import YashModel.Arith.TreeLemmas
 import YashModel.Arith.NumLemmas
+import YashModel.Arith.SemMain
 namespace YashModel.Arith
 open YashModel.Generated.ArithTables
 
@@ -323,6 +324,34 @@ theorem var_value_is_signed_constant (x : Name) (env : Env) :
 theorem eval_rpn (e : Spec.Expr) (env : Env) :
     WF (rpn e) ∧ eval (rpn e).length (rpn e) env = evalTree e env :=
   ⟨rpn_wf e, eval_rpn_tree e _ env (Nat.le_refl _)⟩
+
+/-- ☆ every expression gets its C value: for every tree `e` on which C defines a value (`Spec.inScope`: no
+    unsequenced write/use of a variable, no conditional as lvalue) with literals in i64, and every
+    environment, the code's evaluation (`eval` on the vector the parser lays out for `e`, then
+    `into_value`) returns exactly the Spec's exact value and final variables — and an error exactly when
+    the Spec has none (overflow, division by zero, bad shift, bad variable value, assignment to a
+    non-variable).  The evaluation order of the code ("left term, right operand, then left value") and the
+    Spec's left-to-right order are shown to coincide on these trees by a frame argument. -/
+theorem model_computes_C_value (e : Spec.Expr) (env : Env) (hs : Spec.inScope e = true) (hl : litsInRange e) :
+    match Spec.evalExact e env with
+    | some (v, env') => evalValue (rpn e) env = .ok (v, env')
+    | none => ∃ err, evalValue (rpn e) env = .error err :=
+  evalValue_rpn e env hs hl
+
+/-- the hypotheses are met by `x = 2 + 3 * b` (and `rpn` of it is what the parser produces) -/
+example :
+    let e : Spec.Expr := .bin .Assign (.var ['x']) (.bin .Add (.num 2) (.bin .Multiply (.num 3) (.var ['b'])))
+    Spec.inScope e = true ∧ litsInRange e ∧ (parse "x = 2 + 3 * b".toList).toOption = some (rpn e) ∧
+    Spec.evalExact e [(['b'], ['5'])] = some (17, [(['b'], ['5']), (['x'], ['1', '7'])]) := by
+  refine ⟨by decide, by simp [litsInRange, InRange], by decide +kernel, by decide +kernel⟩
+
+/-- outside the scope the Spec is silent, and the code does give another answer than left-to-right
+    evaluation would: `x + (x = 5)` is 10 with `x` initially unset -/
+example :
+    let e : Spec.Expr := .bin .Add (.var ['x']) (.bin .Assign (.var ['x']) (.num 5))
+    Spec.inScope e = false ∧ evalValue (rpn e) [] = .ok (10, [(['x'], ['5'])]) ∧
+    Spec.evalExact e [] = some (5, [(['x'], ['5'])]) := by
+  refine ⟨by decide, by decide +kernel, by decide +kernel⟩
 
 /-- the two witnesses that failed before the fix: `x=010` is 8, `x=0x10` is 16 -/
 example : expandVariable ['x'] [(['x'], "010".toList)] = .ok 8 ∧
